@@ -781,10 +781,8 @@ class Analysis:
                 return TOP
         # package functions: analyse the callee with the abstract arguments
         funcs, d_ = self.proj.resolve_call(e, func) if func is not None else ([], None)
-        if len(funcs) > 1:
-            self.truncated.append("call %s has %d candidate callees" % (norm(e.func), len(funcs)))
-        if funcs and len(funcs) == 1:
-            g = funcs[0]
+        results = []
+        for g in funcs:       # several candidates (a local bound to one of several functions): each analysed, results joined
             params = [p for p in g.params]
             is_ctor = d_ in self.proj.classes
             if g.cls is not None and params and params[0] in ("self", "cls") and (isinstance(f, ast.Attribute) or is_ctor):
@@ -810,7 +808,12 @@ class Analysis:
             if any((isinstance(x, ast.Call) and isinstance(x.func, ast.Attribute) and x.func.attr in SHRINKING) or isinstance(x, ast.Delete)
                    for x in ast.walk(g.node)):
                 self.shrink_all(env)
-            return TOP if is_ctor else res
+            results.append(TOP if is_ctor else res)
+        if results:
+            out = results[0]
+            for r_ in results[1:]:
+                out = join(out, r_)
+            return out
         return TOP
 
     # ------------------------------------------------------------ refinement
